@@ -66,6 +66,7 @@ fixed("C07","C07/error-line-out-of-range/mutation","de58904","a zone text ending
 fixed("C07","C07/syntax-error-not-reported/unbalanced-parenthesis/CSYNC","cdc71f1","an unbalanced parenthesis inside the RDATA of NSEC, NSEC3, NXT, CSYNC, LOC, HIP, APL, SVCB/HTTPS or NSEC3PARAM was swallowed: the record was returned, every later entry silently dropped and Err() stayed nil (those RDATA loops ignore the lexer's error flag)")
 fixed("C07","C07/syntax-error-not-reported/ttl-out-of-range","caf99ce","a TTL written with so many digits that the 64-bit accumulator wraps (18446744073709551617) was accepted as a small TTL (1) in records, $TTL and $GENERATE templates instead of being reported (noticed by a round-5 sub-agent while preparing a different change)")
 # ---- C11
+fixed("C10","C10/irrelevant-variant-rejected/raw-8bit-spelling/ED25519","8981502","CanonicalName mapped runes instead of octets (strings.Map): every raw octet above 0x7F that is not part of a valid UTF-8 sequence was replaced by U+FFFD, so RRSIGs over names holding such octets did not verify against the same names written with \\DDD escapes; also observable as C19/CanonicalName/raw-8bit")
 fixed("C11","C11/accepts-altered/field/fudge-zero","a6d820e","TsigVerify substituted the default fudge 300 (and the current time) for a zero fudge / time signed found in the received TSIG, so a message whose fudge was changed from 300 to 0 still verified")
 # ---- C13
 fixed("C13","fatal/panic_close_of_closed_channel/.(*Server).serveTCP.func1","66a701b","starting a Server again while a Shutdown of it was still waiting for a handler re-created srv.shutdown under the old serve loop: the process died with 'close of closed channel' (serveTCP/serveUDP epilogue) and ShutdownContext raced with init() on the field; a start is now refused until the previous loop has drained")
